@@ -16,3 +16,4 @@ Definition big_c02_report := big_report [99;48;50;95].
 Definition big_c03_report := big_report [99;48;51;95].
 Definition big_c04_report := big_report [99;48;52;95].
 Definition big_c12_report := big_report [99;49;50;95].
+Definition big_c13_report := big_report [99;49;51;95].
